@@ -108,6 +108,10 @@ def solve_milp(
     if root_result.status == LPStatus.UNBOUNDED:
         return Result(None, float("-inf") if minimize else float("inf"), 0, total_iters, Status.UNBOUNDED)
 
+    if root_result.status == LPStatus.MAX_ITER:
+        # The root relaxation ran out of simplex iterations: its point is neither optimal nor a bound
+        return Result(None, float("inf") if minimize else float("-inf"), 0, total_iters, Status.MAX_ITER)
+
     best_solution, best_obj = None, float("inf") if minimize else float("-inf")
     sign = 1 if minimize else -1
     all_solutions: list[tuple[float, ...]] = []
@@ -162,6 +166,7 @@ def solve_milp(
     heappush(tree, (root_bound, counter, Node(root_bound, tuple(lower), tuple(upper), 0)))
     counter += 1
     nodes_explored = 0
+    truncated = False  # a node relaxation hit max_iter: its subtree is unexplored, not infeasible
 
     while tree and nodes_explored < max_nodes:
         node_bound, _, node = heappop(tree)
@@ -175,6 +180,7 @@ def solve_milp(
         nodes_explored += 1
 
         if result.status != LPStatus.OPTIMAL:
+            truncated = truncated or result.status == LPStatus.MAX_ITER
             continue
 
         if best_solution is not None and sign * result.objective >= sign * best_obj - eps:
@@ -203,7 +209,7 @@ def solve_milp(
             if sign * sol_obj < sign * best_obj:
                 best_solution, best_obj = sol, sol_obj
                 gap = _compute_gap(best_obj, node_bound / sign if node_bound != 0 else 0)
-                if gap < gap_tol and solution_limit == 1:
+                if gap < gap_tol and solution_limit == 1 and not truncated:
                     return Result(best_solution, best_obj, nodes_explored, total_iters)
 
             continue
@@ -225,10 +231,10 @@ def solve_milp(
 
     if best_solution is None:
         # Open nodes left means the node limit stopped the search: nothing is proven
-        status = Status.MAX_ITER if tree else Status.INFEASIBLE
+        status = Status.MAX_ITER if tree or truncated else Status.INFEASIBLE
         return Result(None, float("inf") if minimize else float("-inf"), nodes_explored, total_iters, status)
 
-    status = Status.OPTIMAL if not tree else Status.FEASIBLE
+    status = Status.OPTIMAL if not tree and not truncated else Status.FEASIBLE
     if solution_limit > 1 and all_solutions:
         return Result(best_solution, best_obj, nodes_explored, total_iters, status, solutions=tuple(all_solutions))
     return Result(best_solution, best_obj, nodes_explored, total_iters, status)
